@@ -49,11 +49,15 @@ def get_boolean_attribute(attribute_list, name, default_value=None):
         requested attribute is not found or has a non-boolean value.
     """
     attribute_value = get_attribute(attribute_list, name)
-    if not attribute_value or not attribute_value.expression.has_field(
-        "boolean_constant"
-    ):
+    if not attribute_value:
         return default_value
-    return attribute_value.expression.boolean_constant.value
+    expression = ir_data_utils.reader(attribute_value).expression
+    if expression.has_field("boolean_constant"):
+        return expression.boolean_constant.value
+    if expression.type.boolean.has_field("value"):
+        # A constant boolean expression, once its value has been computed.
+        return expression.type.boolean.value
+    return default_value
 
 
 def get_integer_attribute(attribute_list, name, default_value=None):
